@@ -676,7 +676,7 @@ def kf_match(f, law, kind, ty, subject, bits):
             continue
         if "via" in sig and bits.get("m") != sig["via"]:
             continue
-        if "prev_direct" in sig and bits.get("prev_d") != sig["prev_direct"]:      # the frame decoded just before on the same decoder
+        if "prev_rejected" in sig and bits.get("prev_rejected") != sig["prev_rejected"]:   # an earlier frame on the same decoder
             continue
         return True
     return False
@@ -767,7 +767,11 @@ def report(out, tier, jobs, table, failed, tot, cov, gst, wd):
     per_sig = {}
     rows_by_id = {}
     # the failing rows' bits: re-read from the chunk files
-    want = {f["id"] for f in failed} | {f["id"] - 1 for f in failed}
+    want = {f["id"] for f in failed}
+    for f in failed:      # and the earlier frames of the same sequence (the rows just before)
+        inf = table.info[f["id"] - 1]
+        if inf[0] == "seq":
+            want |= {f["id"] - k for k in range(1, inf[2][1] + 1)}
     if want:
         for p, first, cnt in table.chunks:
             if any(first <= i < first + cnt for i in want):
@@ -785,8 +789,9 @@ def report(out, tier, jobs, table, failed, tot, cov, gst, wd):
             # a frame of a sequence is a document: the same signatures apply to its text
             # (clauses with op "seq" apply to the 2nd and later frames only: a recognizer that has been reset)
             subj, mkinds = subject[0][subject[1]], (("seq", "doc") if subject[1] > 0 else ("doc",))
-            if subject[1] > 0 and f["id"] - 1 in rows_by_id:
-                row = dict(row, prev_d=rows_by_id[f["id"] - 1]["d"])
+            if subject[1] > 0:
+                # was a frame decoded earlier on the same decoder rejected by the direct path?
+                row = dict(row, prev_rejected=any(not rows_by_id[f["id"] - k]["d"] for k in range(1, subject[1] + 1)))
         else:
             subj, mkinds = (subject if kind == "doc" else canon(subject)), (kind,)
         covering = [next((kf for kf in findings if any(kf_match(kf, law, mk, ty, subj, row) for mk in mkinds)), None) for law in laws]
